@@ -5,6 +5,8 @@
  *   poly m <deg> c0 .. cdeg        monomial, integer coefficients (c0.. = 0 gives zero roots)
  *   poly s <n> a1 b1 .. an bn      secular equation sum a_i/(x-b_i) = 1, integer data
  *   poly p <text>                  inline polynomial through the parser
+ *   poly r <n> r1 .. rn            prod (x - r_i), integer roots, repetitions = multiple roots
+ *   (after each step of an initialised context also: sz <lineno> <exact 0|1> <elements of the 12 work arrays>)
  *   bad <text>                     malformed inline polynomial (error injection)
  *   solve | solve_async | get_roots | free_poly | free | leakcheck | mark
  *
@@ -16,6 +18,7 @@
  * Values are exported exactly (base-16 mantissa of the mpf, DPE radius as mantissa+exponent).
  */
 #include <mps/mps.h>
+#include <gmp.h>
 #include <stdio.h>
 #include <stdlib.h>
 #include <string.h>
@@ -35,6 +38,16 @@ static size_t heap_bytes (void)
   return mi.uordblks + mi.hblkhd;
 }
 
+size_t __sanitizer_get_allocated_size (const volatile void *p) __attribute__((weak));
+
+/* elements currently allocated for a work array: exact under ASan, usable size (>= requested) otherwise */
+static long elems (void *p, size_t el)
+{
+  if (!p) return 0;
+  if (__sanitizer_get_allocated_size) return (long)(__sanitizer_get_allocated_size (p) / el);
+  return (long)(malloc_usable_size (p) / el);
+}
+
 static int n_threads_now (void)
 {
   int k = 0;
@@ -44,6 +57,79 @@ static int n_threads_now (void)
   while ((e = readdir (d))) if (e->d_name[0] != '.') k++;
   closedir (d);
   return k;
+}
+
+/* ---- guard around GMP's allocations ------------------------------------------------------------
+ * libgmp is not instrumented, so a write past the limbs of an mpf_t (e.g. after mpf_set_prec_raw with a
+ * precision larger than the allocation) is invisible to ASan.  Every GMP block gets a header and a
+ * 16 byte canary behind it; all live blocks are swept after each operation.  VF_GMP_GUARD=0 disables. */
+#define VF_MAGIC 0x56464d5047414c4cUL
+#define VF_CAN 16
+typedef struct vf_hdr { size_t size; unsigned long magic; struct vf_hdr *prev, *next; } vf_hdr;
+static vf_hdr vf_head = { 0, 0, &vf_head, &vf_head };
+static pthread_mutex_t vf_mx = PTHREAD_MUTEX_INITIALIZER;
+static long vf_size_mismatch = 0;
+
+static void *vf_alloc (size_t n)
+{
+  vf_hdr *h = malloc (sizeof (vf_hdr) + n + VF_CAN);
+  if (!h) abort ();
+  h->size = n; h->magic = VF_MAGIC;
+  memset ((char *)(h + 1) + n, 0xA5, VF_CAN);
+  pthread_mutex_lock (&vf_mx);
+  h->next = vf_head.next; h->prev = &vf_head; vf_head.next->prev = h; vf_head.next = h;
+  pthread_mutex_unlock (&vf_mx);
+  return h + 1;
+}
+
+static int vf_canary_ok (vf_hdr *h)
+{
+  unsigned char *c = (unsigned char *)(h + 1) + h->size; int i;
+  for (i = 0; i < VF_CAN; i++) if (c[i] != 0xA5) return 0;
+  return 1;
+}
+
+void __sanitizer_print_stack_trace (void) __attribute__((weak));
+static volatile int vf_lineno = 0;
+
+static void vf_report (const char *when, vf_hdr *h)
+{
+  printf ("gmpguard %d %s block_size=%zu\n", vf_lineno, when, h->size);
+  fprintf (stderr, "ERROR: GmpGuard: overflow-past-gmp-block\n");
+  if (__sanitizer_print_stack_trace) __sanitizer_print_stack_trace ();
+  fflush (stdout);
+  _exit (96);
+}
+
+static void vf_free (void *q, size_t given)
+{
+  vf_hdr *h = (vf_hdr *)q - 1;
+  if (h->magic != VF_MAGIC) { printf ("gmpguard bad-pointer given=%zu\n", given); fflush (stdout); _exit (96); }
+  if (h->size != given) __sync_fetch_and_add (&vf_size_mismatch, 1);
+  if (!vf_canary_ok (h)) vf_report ("at-free", h);
+  pthread_mutex_lock (&vf_mx);
+  h->prev->next = h->next; h->next->prev = h->prev;
+  pthread_mutex_unlock (&vf_mx);
+  h->magic = 0;
+  free (h);
+}
+
+static void *vf_realloc (void *q, size_t old, size_t n)
+{
+  vf_hdr *h = (vf_hdr *)q - 1;
+  void *r = vf_alloc (n);
+  if (h->magic == VF_MAGIC) memcpy (r, q, h->size < n ? h->size : n);
+  vf_free (q, old);
+  return r;
+}
+
+static void vf_sweep (int lineno)
+{
+  vf_hdr *h;
+  pthread_mutex_lock (&vf_mx);
+  for (h = vf_head.next; h != &vf_head; h = h->next)
+    if (!vf_canary_ok (h)) { printf ("gmpguard %d after-op block_size=%zu\n", lineno, h->size); fflush (stdout); _exit (96); }
+  pthread_mutex_unlock (&vf_mx);
 }
 
 #define MAXPOLY 4096
@@ -70,7 +156,7 @@ static void print_mpf (mpf_t x)
   mp_exp_t e;
   char *s = mpf_get_str (NULL, &e, 16, 0, x);
   printf (" %s@%ld", s[0] ? s : "0", (long)e);
-  free (s);
+  { void (*fr)(void *, size_t); mp_get_memory_functions (NULL, NULL, &fr); fr (s, strlen (s) + 1); }
 }
 
 static void dump_roots (int lineno)
@@ -113,9 +199,11 @@ int main (int argc, char **argv)
   char *line = NULL; size_t cap = 0; ssize_t len;
   int lineno = 0;
   setvbuf (stdout, NULL, _IOLBF, 0);
+  int guard = !(getenv ("VF_GMP_GUARD") && getenv ("VF_GMP_GUARD")[0] == '0');
+  if (guard) mp_set_memory_functions (vf_alloc, vf_realloc, vf_free);
   while ((len = getline (&line, &cap, stdin)) > 0)
     {
-      lineno++;
+      lineno++; vf_lineno = lineno;
       while (len > 0 && (line[len - 1] == '\n' || line[len - 1] == '\r')) line[--len] = 0;
       if (!len || line[0] == '#') continue;
       char op[32] = ""; int off = 0;
@@ -172,6 +260,29 @@ int main (int argc, char **argv)
                 }
               P = MPS_POLYNOMIAL (mps_secular_equation_new (ctx, a, b, n));
               cplx_vfree (a); cplx_vfree (b);
+            }
+          else if (kind == 'r')
+            {
+              /* prod (x - r_i), integer roots (repetitions give multiple roots), built exactly */
+              long n = strtol (p, &p, 10), i, j, dg = 0;
+              mpz_t *c = malloc (sizeof (mpz_t) * (n + 1)), tt;
+              mpq_t re, im;
+              for (i = 0; i <= n; i++) mpz_init (c[i]);
+              mpz_init (tt); mpq_init (re); mpq_init (im);
+              mpz_set_ui (c[0], 1);
+              for (i = 0; i < n; i++)
+                {
+                  long r = strtol (p, &p, 10);
+                  mpz_set (c[dg + 1], c[dg]);
+                  for (j = dg; j >= 1; j--) { mpz_mul_si (tt, c[j], r); mpz_sub (c[j], c[j - 1], tt); }
+                  mpz_mul_si (tt, c[0], r); mpz_neg (c[0], tt);
+                  dg++;
+                }
+              mps_monomial_poly *mp = mps_monomial_poly_new (ctx, n);
+              for (i = 0; i <= n; i++) { mpq_set_z (re, c[i]); mps_monomial_poly_set_coefficient_q (ctx, mp, i, re, im); }
+              for (i = 0; i <= n; i++) mpz_clear (c[i]);
+              free (c); mpz_clear (tt); mpq_clear (re); mpq_clear (im);
+              P = MPS_POLYNOMIAL (mp);
             }
           else if (kind == 'p')
             {
@@ -255,6 +366,13 @@ int main (int argc, char **argv)
         }
       else note = "unknown";
 
+      if (guard) vf_sweep (lineno);
+      if (ctx && ctx->initialized)
+        printf ("sz %d %d %ld,%ld,%ld,%ld,%ld,%ld,%ld,%ld,%ld,%ld,%ld,%ld\n", lineno, __sanitizer_get_allocated_size ? 1 : 0,
+                elems (ctx->root, sizeof (mps_approximation *)), elems (ctx->order, sizeof (int)), elems (ctx->fppc1, sizeof (cplx_t)),
+                elems (ctx->mfpc1, sizeof (mpc_t)), elems (ctx->mfppc1, sizeof (mpc_t)), elems (ctx->spar1, sizeof (mps_boolean)),
+                elems (ctx->again_old, sizeof (mps_boolean)), elems (ctx->fap1, sizeof (double)), elems (ctx->fap2, sizeof (double)),
+                elems (ctx->dap1, sizeof (rdpe_t)), elems (ctx->dpc1, sizeof (cdpe_t)), elems (ctx->dpc2, sizeof (cdpe_t)));
       if (ctx)
         printf ("st %d %s ctx=1 init=%d n=%d deg=%d zr=%d err=%d exitreq=%d sec=%d bmpc=%d heap=%zu thr=%d %s\n",
                 lineno, op, (int)ctx->initialized, ctx->n, ctx->deg, ctx->zero_roots, (int)ctx->error_state,
@@ -265,6 +383,6 @@ int main (int argc, char **argv)
                 lineno, op, heap_bytes (), n_threads_now (), note);
     }
   free (line);
-  printf ("end cb=%d\n", cb_count);
+  printf ("end cb=%d gmp_size_mismatch=%ld\n", cb_count, vf_size_mismatch);
   return 0;
 }
